@@ -17,7 +17,7 @@ def run(tier):
         rule='cases = terminal states of Gen_ClockTime (%s): HH:MM and HH:MM:SS for every hour, h:mm am/pm, h am/pm, h:mm without meridiem, and boundary times '
              'attached to date expressions (ISO date, month-name date, tomorrow); oracle ClockTime.tla (12 am = 00, 12 pm = 12, two readings for an hour 1-12 without am/pm); '
              'replayed into recognize_datetime; verdict by TLC (Trace_DT)' % tier,
-        assumptions=d.ASSUME, exhaustive=True)
+        assumptions=d.ASSUME, exhaustive=True, history_of=lambda case: case['text'])
 
 
 def replay(path):
